@@ -163,3 +163,56 @@ def errkind(pid):
         res.floor("refusal rows located", matched_rows, ctx.table("floors").get("errkind_" + pid, 0))
         return res
     return run
+
+
+def deeprefusal(ctx):
+    """R-DEEPREFUSAL (C10): NotFound / AlreadyExists are namespace refusals.  When one is raised below the API
+    layer (inside internal::*), every function on the way down must not have changed anything before calling
+    further down - otherwise the API call is refused after it has already written."""
+    res = RuleResult("R-DEEPREFUSAL", "a NotFound / AlreadyExists refusal constructed inside the internal layer is not preceded by an effect in any function on the call chain that reaches it")
+    callers = {}
+    for f in ctx.fx.fns.values():
+        for c in ctx.cg.calls[f.path]:
+            if c.kind == "call":
+                for g in c.all_targets():
+                    callers.setdefault(g.path, []).append((f, c))
+    n = 0
+    for f in ctx.fx.fns.values():
+        if not f.path.startswith("internal::"):
+            continue
+        for (c, kind) in refusals(ctx, f):
+            if kind not in ("NotFound", "AlreadyExists"):
+                continue
+            n += 1
+            # inside f itself
+            problems = []
+            effs = _effect_nodes(ctx, f)
+            pg = view(ctx, f).pg
+            for (en, desc) in effs:
+                if ("t", c.bb) in pg.reach_after(en):
+                    problems.append("%s in %s" % (desc, f.path.split("::")[-1]))
+                    break
+            # up the call chains
+            seen = {f.path}
+            work = [f.path]
+            while work and not problems:
+                cur = work.pop()
+                for (cf, cc) in callers.get(cur, []):
+                    cpg = view(ctx, cf).pg
+                    for (en, desc) in _effect_nodes(ctx, cf):
+                        if en != ("t", cc.bb) and ("t", cc.bb) in cpg.reach_after(en):
+                            problems.append("%s in %s, before it calls %s (line %d)" % (desc, cf.path.split("::")[-1], cur.split("::")[-1], cc.line))
+                            break
+                    if problems:
+                        break
+                    if cf.path not in seen:
+                        seen.add(cf.path)
+                        work.append(cf.path)
+            key = "R-DEEPREFUSAL/%s/%s" % (f.path, kind)
+            if problems:
+                res.fail(Finding("R-DEEPREFUSAL", key + "/refusal-after-effect-up-the-chain", "%s is raised in %s (line %d), below the API layer, and can be reached after an effect: %s; the API call is then refused with %s although the file has already changed" % (kind, f.path.split("::")[-1], c.line, problems[0], kind), f, c.term["span"]))
+            else:
+                res.ok({"function": f.path, "kind": kind, "line": c.line, "effects_before": 0}, nontrivial=True)
+    res.floor("internal namespace refusals", n, 0)
+    res.notes.append("expected count on the reference tree: 0 (NotFound / AlreadyExists are only constructed in the API layer); the kept seeded change C10-5 is the positive example")
+    return res
